@@ -2,6 +2,7 @@ import ArgoVerif.Proofs.MemPoolPlace
 import ArgoVerif.Proofs.StackGeom
 import ArgoVerif.Proofs.SyncLifo
 import ArgoVerif.Model.MemOwner
+import ArgoVerif.Proofs.MemPoolConcX
 /-
 Props.C15 — descriptors and stacks: exclusive, conserved, any size.
 
@@ -19,7 +20,11 @@ Three models carry the statement:
   * Model.StackGeom — where stack and descriptor sit for each provenance; `stack_geom_*`: all sizes,
                      all 8-byte aligned user stacks;
   * Model.SyncLifo — the lock-free LIFO the global pool is built on; `lifo_*`: all interleavings of
-                     any number of threads.
+                     any number of threads;
+  * Model.MemPoolConc — the global pool used by several callers at once (slow paths of take_bucket,
+                     return_bucket, the partial bucket, page allocation and its failure) and its
+                     tear-down; `mempool_conc_*`, `mempool_destroy_frees_all_pages`: all interleavings
+                     of any number of actors at the granularity of the atomic steps.
 Property theorems only; lemmas are in Proofs/.
 -/
 namespace ArgoVerif.Props.C15
@@ -534,5 +539,282 @@ example : (MemOwner.machine.run MemOwner.init [.use 1 (some 0) false, .use 1 (so
 example : MemOwner.machine.run MemOwner.init [.use 0 (some 0) true, .use 0 (some 1) true] = none := by decide
 
 end MemOwner
+
+/-! ## the global pool under concurrent callers, and its tear-down -/
+section MemPoolConc
+open ArgoVerif.Model.MemPoolConc
+
+/- Vocabulary (Model/MemPoolConc.lean, Proofs/MemPoolConc*.lean): a run is `Star (Step P) init tr s` — any number of
+actors, each inside `init_local_pool / alloc / free / destroy_local_pool`, interleaved at every atomic step of
+`ABTI_mem_pool_take_bucket` (pop of `bucket_lifo`; pop of `mem_page_lifo`; `ABTU_alloc_largepage` succeeding or failing;
+carving and the push of the page back on `mem_page_lifo` or on the empty-page list), `ABTI_mem_pool_return_bucket`,
+`mem_pool_return_partial_bucket` (lock, push of a completed bucket, unlock), followed by
+`ABTI_mem_pool_destroy_global_pool`.  `Carved s h`: `p_mem_extra` of `h`'s page has moved past `h`. -/
+
+/- `CPlace` / `CAt s w h` (where a carved header is: a bucket on `bucket_lifo`, `partial_bucket`, the local pool of an
+actor, in flight inside a call of an actor, handed out) and `GPlace` / `PgAt s w p` (where a page is: `mem_page_lifo`, the
+empty-page list, held by a caller, released) are read off the real state, not the ghost fields
+(Proofs/MemPoolConcX.lean). -/
+
+/-- **C15, concurrent partition.**  In every state reachable by ANY interleaving of any number of callers inside the
+global pool's take / return / partial-bucket / page-allocation paths (allocation may fail at any call):
+  1. a header is carved iff it is at some place — a bucket on `bucket_lifo`, `partial_bucket`, a local pool, in flight
+     inside exactly one caller, or handed out — and it is at exactly one place: two callers that are in the slow path of
+     `take_bucket` at the same time never obtain the same header, a block handed out is in no free chain, nothing carved
+     is ever lost; a header that is not carved is the not-yet-used part of its own page only (ids are `(page, slot)`);
+  2. no place holds a header twice;
+  3. every carved header lies inside its page (`slot < slots`), so blocks of one page do not overlap
+     (`mempool_no_overlap` gives the byte-level statement for the same carving arithmetic). -/
+theorem mempool_conc_partition (P : MemPoolConc.Params) (hP : P.OK) {tr : List MemPoolConc.Ev} {s : MemPoolConc.St}
+    (hr : Star (MemPoolConc.Step P) MemPoolConc.init tr s) :
+    (∀ h, Carved s h ↔ ∃ w, CAt s w h) ∧
+    (∀ h w w', CAt s w h → CAt s w' h → w = w') ∧
+    (s.bucketLifo.flatten.Nodup ∧ s.part.Nodup ∧ s.out.Nodup ∧
+      (∀ a l, s.loc a = some l → (l.full.flatten ++ l.cur).Nodup) ∧ ∀ a, (heldHdrs (s.pc a)).Nodup) ∧
+    (∀ h, Carved s h → h.2 < P.slots) := by
+  have hi := inv_star P hP hr (inv_init P hP)
+  refine ⟨fun h => ?_, fun h w w' h1 h2 => ?_, ⟨hi.h.lifoNd, hi.h.partNd, hi.h.outNd, fun a l hl => ?_, hi.h.heldNd⟩, fun h hc => ?_⟩
+  · have hu := hi.h.unc h
+    constructor
+    · intro hc
+      have hne : s.own h ≠ .uncarved := fun e => (hu.mp e) hc
+      cases ho : s.own h with
+      | uncarved => exact absurd ho hne
+      | lifo => exact ⟨.lifo, (cat_own hi .lifo h).mpr ho⟩
+      | part => exact ⟨.part, (cat_own hi .part h).mpr ho⟩
+      | loc a => exact ⟨.loc a, (cat_own hi (.loc a) h).mpr ho⟩
+      | held a => exact ⟨.held a, (cat_own hi (.held a) h).mpr ho⟩
+      | out => exact ⟨.out, (cat_own hi .out h).mpr ho⟩
+    · rintro ⟨w, hw⟩
+      have ho := (cat_own hi w h).mp hw
+      refine Classical.byContradiction fun hn => ?_
+      have := hu.mpr hn
+      rw [this] at ho
+      cases w <;> cases ho
+  · have a := (cat_own hi w h).mp h1
+    have b := (cat_own hi w' h).mp h2
+    rw [a] at b
+    cases w <;> cases w' <;> simp_all
+  · have := hi.h.locNd a
+    rw [hl] at this
+    exact this
+  · obtain ⟨h1, h2⟩ := hc
+    have hne : s.pown h.1 ≠ .unalloc := fun e => Nat.not_le.mpr h1 ((hi.p.unalloc h.1).mp e)
+    cases hp : s.pown h.1 with
+    | unalloc => exact absurd hp hne
+    | lifo => have := hi.p.lifoRoom _ hp; omega
+    | empty => have := hi.p.emptyFull _ hp; omega
+    | held a => have := hi.p.heldRoom a _ hp; omega
+    | released => have := hi.p.usedLe h.1; omega
+
+/-- **C15, pages.**  In every reachable state every page obtained from `ABTU_alloc_largepage` (ids `0 .. npages-1`,
+pairwise distinct by the allocator's contract) is at exactly one place: on `mem_page_lifo` *with room for at least one
+more header*, on the empty-page list *completely carved*, popped / freshly allocated and held by exactly one caller
+(which is what lets it update `p_mem_extra` with plain stores), or released by the tear-down; no list holds a page twice.
+`mem_page_lifo` may hold ANY number of pages (see the two-caller example below). -/
+theorem mempool_conc_pages (P : MemPoolConc.Params) (hP : P.OK) {tr : List MemPoolConc.Ev} {s : MemPoolConc.St}
+    (hr : Star (MemPoolConc.Step P) MemPoolConc.init tr s) :
+    (∀ p, p < s.npages ↔ ∃ w, PgAt s w p) ∧
+    (∀ p w w', PgAt s w p → PgAt s w' p → w = w') ∧
+    (s.pageLifo.Nodup ∧ s.emptyPages.Nodup ∧ s.released.Nodup) ∧
+    (∀ p, p ∈ s.pageLifo → s.used p < P.slots) ∧ (∀ p, p ∈ s.emptyPages → s.used p = P.slots) ∧
+    (∀ a p, heldPage (s.pc a) = some p → s.used p < P.slots) := by
+  have hi := inv_star P hP hr (inv_init P hP)
+  have key : ∀ w p, PgAt s w p ↔ s.pown p = (match w with
+      | .lifo => PPlace.lifo | .empty => PPlace.empty | .held a => PPlace.held a | .released => PPlace.released) := by
+    intro w p
+    cases w with
+    | lifo => exact hi.p.lifo p
+    | empty => exact hi.p.empty p
+    | held a => exact hi.p.held a p
+    | released => exact hi.p.rel p
+  refine ⟨fun p => ?_, fun p w w' h1 h2 => ?_, ⟨hi.p.lifoNd, hi.p.emptyNd, hi.p.relNd⟩,
+    fun p hp => hi.p.lifoRoom p ((hi.p.lifo p).mp hp), fun p hp => hi.p.emptyFull p ((hi.p.empty p).mp hp),
+    fun a p hp => hi.p.heldRoom a p ((hi.p.held a p).mp hp)⟩
+  · have hu := hi.p.unalloc p
+    constructor
+    · intro hlt
+      have hne : s.pown p ≠ .unalloc := fun e => Nat.not_le.mpr hlt (hu.mp e)
+      cases ho : s.pown p with
+      | unalloc => exact absurd ho hne
+      | lifo => exact ⟨.lifo, (key .lifo p).mpr ho⟩
+      | empty => exact ⟨.empty, (key .empty p).mpr ho⟩
+      | held a => exact ⟨.held a, (key (.held a) p).mpr ho⟩
+      | released => exact ⟨.released, (key .released p).mpr ho⟩
+    · rintro ⟨w, hw⟩
+      have ho := (key w p).mp hw
+      refine Nat.lt_of_not_le fun hn => ?_
+      rw [hu.mpr hn] at ho
+      cases w <;> cases ho
+  · have a := (key w p).mp h1
+    have b := (key w' p).mp h2
+    rw [a] at b
+    cases w <;> cases w' <;> simp_all
+
+/-- **C15, `mempool_conc_conserved`: concurrent take / return neither loses nor duplicates a header.**  Along any
+continuation of any run, a header that is carved stays carved and is again at exactly one place (`CAt`), whatever the
+other callers did in between — in particular across two overlapping slow paths of `take_bucket`, across a bucket
+completed from `partial_bucket` while others push and pop `bucket_lifo`, and across failed page allocations that hand
+their partly built bucket to `partial_bucket`. -/
+theorem mempool_conc_conserved (P : MemPoolConc.Params) (hP : P.OK) {tr tr' : List MemPoolConc.Ev} {s s' : MemPoolConc.St}
+    (hr : Star (MemPoolConc.Step P) MemPoolConc.init tr s) (hr' : Star (MemPoolConc.Step P) s tr' s') (h : MemPoolConc.Hdr)
+    (hc : Carved s h) :
+    Carved s' h ∧ ∃ w, CAt s' w h ∧ ∀ w', CAt s' w' h → w' = w := by
+  have hi := inv_star P hP hr (inv_init P hP)
+  have hc' := carved_mono_star P hP hr' hi h hc
+  have hrr : Star (MemPoolConc.Step P) MemPoolConc.init (tr ++ tr') s' := star_append hr hr'
+  obtain ⟨p1, p2, _⟩ := mempool_conc_partition P hP hrr
+  obtain ⟨w, hw⟩ := (p1 h).mp hc'
+  exact ⟨hc', w, hw, fun w' hw' => p2 h w' w hw' hw⟩
+
+/-- **C15, `mempool_destroy_frees_all_pages`: tear-down releases every page exactly once.**  Once
+`ABTI_mem_pool_destroy_global_pool` has returned (it may only be called when every local pool has been destroyed and
+nobody is inside the pool), every page ever obtained from `ABTU_alloc_largepage` has been given to
+`ABTU_free_largepage` exactly once — however many pages `mem_page_lifo` held when tear-down began — and nothing else
+was released; if in addition every block was returned, every header ever carved sits in the global pool
+(`bucket_lifo` or `partial_bucket`), i.e. inside released pages only. -/
+theorem mempool_destroy_frees_all_pages (P : MemPoolConc.Params) (hP : P.OK) {tr : List MemPoolConc.Ev} {s : MemPoolConc.St}
+    (hr : Star (MemPoolConc.Step P) MemPoolConc.init tr s) (hd : s.phase = .dead) :
+    (∀ p, p ∈ s.released ↔ p < s.npages) ∧ s.released.Nodup ∧ s.released.length = s.npages ∧
+    s.pageLifo = [] ∧ s.emptyPages = [] ∧ (∀ a, s.pc a = .idle ∧ s.loc a = none) ∧
+    (s.out = [] → ∀ h, Carved s h → CAt s .lifo h ∨ CAt s .part h) := by
+  have hi := inv_star P hP hr (inv_init P hP)
+  have hne : s.phase ≠ .live := by rw [hd]; simp
+  have hidle := hi.d.idle hne
+  have hloc := hi.d.noLoc hne
+  have hl := hi.d.walkLifo (Or.inr hd)
+  have he := hi.d.deadEmpty hd
+  have hmem : ∀ p, p ∈ s.released ↔ p < s.npages := by
+    intro p
+    obtain ⟨q1, _⟩ := mempool_conc_pages P hP hr
+    constructor
+    · intro hp; exact (q1 p).mpr ⟨.released, hp⟩
+    · intro hp
+      obtain ⟨w, hw⟩ := (q1 p).mp hp
+      cases w with
+      | lifo => simp [PgAt, hl] at hw
+      | empty => simp [PgAt, he] at hw
+      | held a => simp [PgAt, hidle a, heldPage] at hw
+      | released => exact hw
+  refine ⟨hmem, hi.p.relNd, ?_, hl, he, fun a => ⟨hidle a, hloc a⟩, fun hout h hc => ?_⟩
+  · have hperm : s.released.Perm (List.range s.npages) :=
+      (List.perm_ext_iff_of_nodup hi.p.relNd List.nodup_range).mpr (fun p => by rw [hmem p, List.mem_range])
+    rw [hperm.length_eq, List.length_range]
+  · obtain ⟨p1, _⟩ := mempool_conc_partition P hP hr
+    obtain ⟨w, hw⟩ := (p1 h).mp hc
+    cases w with
+    | lifo => exact Or.inl hw
+    | part => exact Or.inr hw
+    | loc a => obtain ⟨l, hl', _⟩ := hw; rw [hloc a] at hl'; cases hl'
+    | held a => simp [CAt, hidle a, heldHdrs] at hw
+    | out => simp [CAt, hout] at hw
+
+/-- the premise of tear-down, and what it leaves behind at every moment: `destroy_global_pool` runs only when every
+actor is outside the pool and has no local pool; while it runs, a page is either still on one of the two lists or
+released — never both, never twice -/
+theorem mempool_destroy_progress (P : MemPoolConc.Params) (hP : P.OK) {tr : List MemPoolConc.Ev} {s : MemPoolConc.St}
+    (hr : Star (MemPoolConc.Step P) MemPoolConc.init tr s) (hd : s.phase ≠ .live) :
+    (∀ a, s.pc a = .idle ∧ s.loc a = none) ∧
+    (∀ p, p < s.npages → (p ∈ s.pageLifo ∨ p ∈ s.emptyPages ∨ p ∈ s.released)) ∧
+    (∀ p, p ∈ s.released → p ∉ s.pageLifo ∧ p ∉ s.emptyPages) := by
+  have hi := inv_star P hP hr (inv_init P hP)
+  have hidle := hi.d.idle hd
+  obtain ⟨q1, q2, _⟩ := mempool_conc_pages P hP hr
+  refine ⟨fun a => ⟨hidle a, hi.d.noLoc hd a⟩, fun p hp => ?_, fun p hp => ⟨fun h1 => ?_, fun h1 => ?_⟩⟩
+  · obtain ⟨w, hw⟩ := (q1 p).mp hp
+    cases w with
+    | lifo => exact Or.inl hw
+    | empty => exact Or.inr (Or.inl hw)
+    | held a => simp [PgAt, hidle a, heldPage] at hw
+    | released => exact Or.inr (Or.inr hw)
+  · have := q2 p .released .lifo hp h1; cases this
+  · have := q2 p .released .empty hp h1; cases this
+
+/-- **C15, no assertion fires in the concurrent slow path.**  Whoever holds a page (popped from `mem_page_lifo` or fresh)
+can carve at least one header from it: `ABTI_ASSERT(num_provided != 0)` holds in every interleaving (a page on
+`mem_page_lifo` always has room; the loop runs only while the bucket is incomplete); and the spinlock of
+`partial_bucket` is held by exactly the one actor that is inside its critical section. -/
+theorem mempool_conc_no_assert (P : MemPoolConc.Params) (hP : P.OK) {tr : List MemPoolConc.Ev} {s : MemPoolConc.St}
+    (hr : Star (MemPoolConc.Step P) MemPoolConc.init tr s) :
+    (∀ a pu acc p, s.pc a = .havePage pu acc p → numProvided P s p acc ≠ 0 ∧ s.used p + numProvided P s p acc ≤ P.slots ∧
+        (numProvided P s p acc + acc.length ≤ P.perBucket)) ∧
+    (∀ a, inCS (s.pc a) = true ↔ s.partLock = some a) ∧
+    (∀ a a', inCS (s.pc a) = true → inCS (s.pc a') = true → a = a') := by
+  have hi := inv_star P hP hr (inv_init P hP)
+  refine ⟨fun a pu acc p hpc => ?_, hi.d.lock, fun a a' h1 h2 => ?_⟩
+  · have h1 := hi.p.heldRoom a p ((hi.p.held a p).mp (by rw [hpc]; rfl))
+    have h2 := hi.z.pc a
+    rw [hpc] at h2
+    simp only [pcSizes] at h2
+    simp only [numProvided]
+    omega
+  · have := (hi.d.lock a).mp h1
+    have := (hi.d.lock a').mp h2
+    simp_all
+
+/-- every trace the executable model (`driver mempoolconc`, which validates the controlled-scheduler traces of
+`harness/sc_mempool.c`) accepts is a run of the relational system, so the theorems above apply to it -/
+theorem mempool_conc_exec_sound (P : MemPoolConc.Params) (hP : P.OK) (tr : List MemPoolConc.Ev) (s : MemPoolConc.St)
+    (h : (MemPoolConc.machine P).run MemPoolConc.init tr = some s) : Star (MemPoolConc.Step P) MemPoolConc.init tr s :=
+  run_star P hP tr _ _ (inv_init P hP) h
+
+/-! non-vacuity: 2 headers per bucket, 3 headers per page (as small as the white-box scenario's settings) -/
+private def PC : MemPoolConc.Params := ⟨2, 3, 2⟩
+example : PC.OK := ⟨by decide, by decide, by decide⟩
+
+/-- two callers in the slow path of `take_bucket` at the same time: both find `bucket_lifo` and `mem_page_lifo` empty,
+both allocate a page, both push the rest of their page — `mem_page_lifo` ends up with TWO pages -/
+private def twoPages : List MemPoolConc.Ev :=
+  [.callInit 0, .popBucket 0 none, .popPage 0 none, .callInit 1, .popBucket 1 none, .popPage 1 none,
+   .allocPage 0 true, .allocPage 1 true, .pushPage 0 0, .pushPage 1 1, .retInit 0 true, .retInit 1 true]
+
+example : ((MemPoolConc.machine PC).run MemPoolConc.init twoPages).map (fun s => (s.pageLifo, s.npages, s.emptyPages))
+    = some ([1, 0], 2, []) := by decide
+
+/-- the complete tear-down after that run: both local pools destroyed, then `destroy_global_pool` pops BOTH pages -/
+private def tearDown : List MemPoolConc.Ev :=
+  [.callDestroy 0, .pushBucket 0 (some (0, 1)), .retDestroy 0, .callDestroy 1, .pushBucket 1 (some (1, 1)), .retDestroy 1,
+   .destroyStart, .relLifo 1, .relLifo 0, .lifoEmpty, .destroyEnd]
+
+example : ((MemPoolConc.machine PC).run MemPoolConc.init (twoPages ++ tearDown)).map
+    (fun s => (s.released, s.npages, decide (s.phase = .dead))) = some ([0, 1], 2, true) := by decide
+
+/-- the hypotheses of `mempool_destroy_frees_all_pages` are satisfiable: that trace is a run ending in `dead` -/
+example : ∃ s, Star (MemPoolConc.Step PC) MemPoolConc.init (twoPages ++ tearDown) s ∧ s.phase = .dead := by
+  have h : ∃ s, (MemPoolConc.machine PC).run MemPoolConc.init (twoPages ++ tearDown) = some s ∧ s.phase = .dead := by
+    cases hr : (MemPoolConc.machine PC).run MemPoolConc.init (twoPages ++ tearDown) with
+    | none => exact absurd hr (by decide)
+    | some s =>
+      refine ⟨s, rfl, ?_⟩
+      have : ((MemPoolConc.machine PC).run MemPoolConc.init (twoPages ++ tearDown)).map (fun s => decide (s.phase = .dead))
+          = some true := by decide
+      rw [hr] at this
+      simpa using this
+  obtain ⟨s, h1, h2⟩ := h
+  exact ⟨s, mempool_conc_exec_sound PC ⟨by decide, by decide, by decide⟩ _ _ h1, h2⟩
+
+/-- teeth: a tear-down that pops only ONE page of `mem_page_lifo` and goes on to the empty-page list is not a run — the
+model refuses `lifoEmpty` while a page is still on the LIFO (this is the behaviour of a `destroy_global_pool` whose
+`while` became an `if`) … -/
+example : (MemPoolConc.machine PC).run MemPoolConc.init
+    (twoPages ++ [.callDestroy 0, .pushBucket 0 (some (0, 1)), .retDestroy 0, .callDestroy 1, .pushBucket 1 (some (1, 1)),
+      .retDestroy 1, .destroyStart, .relLifo 1, .lifoEmpty]) = none := by decide
+
+/-- … and right before that step the ledger is not balanced: page 0 is obtained, not released, still on the LIFO -/
+example : ((MemPoolConc.machine PC).run MemPoolConc.init
+    (twoPages ++ [.callDestroy 0, .pushBucket 0 (some (0, 1)), .retDestroy 0, .callDestroy 1, .pushBucket 1 (some (1, 1)),
+      .retDestroy 1, .destroyStart, .relLifo 1])).map (fun s => (s.released, s.pageLifo, s.npages)) = some ([1], [0], 2) := by
+  decide
+
+/-- a failed page allocation in the middle of a bucket hands the carved headers to `partial_bucket`; another caller's
+remainder completes a bucket under the lock -/
+example : ((MemPoolConc.machine ⟨3, 2, 2⟩).run MemPoolConc.init
+    [.callInit 0, .popBucket 0 none, .popPage 0 none, .allocPage 0 true, .pushEmpty 0 0, .popPage 0 none,
+     .allocPage 0 false, .lockPart 0, .unlockPart 0, .retInit 0 false,
+     .callInit 1, .popBucket 1 none, .popPage 1 none, .allocPage 1 true, .pushEmpty 1 1, .popPage 1 none,
+     .allocPage 1 false, .lockPart 1, .pushBucket 1 (some (0, 1)), .unlockPart 1, .retInit 1 false]).map
+    (fun s => (s.bucketLifo, s.part, s.emptyPages)) = some ([[(0, 1), (1, 1), (1, 0)]], [(0, 0)], [1, 0]) := by decide
+
+end MemPoolConc
 
 end ArgoVerif.Props.C15
